@@ -97,7 +97,11 @@ pub(crate) fn make_get_candidates_method(
         let context = params.context.unwrap_or_default().into();
         let candidates: Vec<Candidate>;
         {
+            #[cfg(chokan_verif)]
+            crate::verif::point("convert.before_dict_lock");
             let dict = ctx.dictionary.lock().unwrap();
+            #[cfg(chokan_verif)]
+            crate::verif::point("convert.before_pref_lock");
             let user_pref = ctx.user_pref.lock().unwrap();
             candidates = get_candidates(
                 &params.input,
@@ -118,6 +122,8 @@ pub(crate) fn make_get_candidates_method(
             .collect::<Vec<_>>();
         let session_id = SessionId::new();
 
+        #[cfg(chokan_verif)]
+        crate::verif::point("convert.before_store_lock");
         // レスポンスを返す前にsessionを記録しておく。後から記録すると、直後の確定が取りこぼされる
         store
             .lock()
@@ -152,7 +158,11 @@ pub(crate) fn make_get_proper_candidates_method(
         let params = params.parse::<GetProperCandidatesRequest>()?;
         let candidates: Vec<Candidate>;
         {
+            #[cfg(chokan_verif)]
+            crate::verif::point("convert.before_dict_lock");
             let dict = ctx.dictionary.lock().unwrap();
+            #[cfg(chokan_verif)]
+            crate::verif::point("convert.before_pref_lock");
             let user_pref = ctx.user_pref.lock().unwrap();
             candidates = get_candidates(
                 &params.input,
@@ -173,6 +183,8 @@ pub(crate) fn make_get_proper_candidates_method(
             .collect::<Vec<_>>();
         let session_id = SessionId::new();
 
+        #[cfg(chokan_verif)]
+        crate::verif::point("convert.before_store_lock");
         // レスポンスを返す前にsessionを記録しておく。後から記録すると、直後の確定が取りこぼされる
         store
             .lock()
@@ -250,6 +262,8 @@ pub(crate) fn make_update_frequency_method(
         let params = params.parse::<UpdateFrequencyRequest>()?;
         {
             let session_id = params.session_id;
+            #[cfg(chokan_verif)]
+            crate::verif::point("confirm.before_store_lock");
             let mut store = store.lock().unwrap();
 
             let session = store.pop_session(&SessionId::from(session_id));
@@ -260,6 +274,8 @@ pub(crate) fn make_update_frequency_method(
             });
 
             if let Some((c, context)) = candidate {
+                #[cfg(chokan_verif)]
+                crate::verif::point("confirm.before_pref_lock");
                 let mut user_pref = ctx.user_pref.lock().unwrap();
 
                 if let Some(word) = c.body.to_string_only_independent() {
@@ -335,6 +351,8 @@ pub(crate) fn make_register_word(
                     Speech::Noun(NounVariant::Proper),
                 ),
             };
+            #[cfg(chokan_verif)]
+            crate::verif::count(&crate::verif::ENTRIES_SENT);
             entry_updater.send(entry).unwrap();
         }
 
